@@ -104,7 +104,10 @@ class Lists(Space):
         for ci in range(len(CTX)):
             for ordered in (False, True):
                 for n in range(1, self.maxn + 1):
-                    pools = [self.item_ids] * min(n, 2) + [self.item_reps] * max(0, n - 2)
+                    # the whole item alphabet in the first two positions (four items: in the first position only -- with 15 item kinds the
+                    # complete 15^2 x 6^2 product did not finish in 25 minutes), one representative per kind in the others
+                    full = 2 if n <= 3 else 1
+                    pools = [self.item_ids] * min(n, full) + [self.item_reps] * max(0, n - full)
                     for items in itertools.product(*pools):
                         for gaps in itertools.product((False, True), repeat=n - 1):
                             for w in self.widths:
